@@ -43,4 +43,40 @@ theorem solveFromF_ok_empty (tbl : Table) (alg : AtomAlg A) (steps : List (List 
           obtain ⟨rfl, rfl⟩ := h
           exact finish_ok_empty _ _ _ hf
 
+/-- a nested solver that resets its buffers gives the same argument values from any state -/
+theorem solveArgs_reset (f : Bufs A → List Char → Bufs A × Except String (Tok A))
+    (args : List (List Char)) :
+    ∀ st0 st1, solveArgs (fun st a => f (resetBufs st) a) st0 args
+      = solveArgs (fun st a => f (resetBufs st) a) st1 args := by
+  induction args with
+  | nil => intro _ _; rfl
+  | cons a as ih =>
+    intro st0 st1
+    simp only [solveArgs]
+    have e : f (resetBufs st0) a = f (resetBufs st1) a := rfl
+    rw [e]
+
+theorem solveArgs_fresh (tbl : Table) (alg : AtomAlg A) (steps : List (List String × Otype))
+    (args : List (List Char)) :
+    ∀ st0, solveArgs (fun st a => solveI tbl alg steps st a) st0 args = freshArgs tbl alg steps args := by
+  induction args with
+  | nil => intro _; rfl
+  | cons a as ih =>
+    intro st0
+    simp only [solveArgs, freshArgs]
+    have e : (solveI tbl alg steps st0 a).2 = SciVerif.C01.solve tbl alg steps a := rfl
+    cases hf : solveI tbl alg steps st0 a with
+    | mk st' r =>
+      rw [hf] at e
+      simp only at e
+      subst e
+      generalize SciVerif.C01.solve tbl alg steps a = r
+      cases r with
+      | error m => rfl
+      | ok t =>
+        cases t with
+        | op i x => rfl
+        | none => simp only [ih st']; rfl
+        | atom v => simp only [ih st']; rfl
+
 end SciVerif.C02
